@@ -186,7 +186,7 @@ reg(["C05", "C01"], H("d10::d_ipfix_two_fields", unwind=4, timeout=2400, mem_gb=
 reg(["C05", "C01"], H("d10::d_ipfix_three_records", unwind=5, timeout=2400, mem_gb=30,
     desc="ipfix::Data::parse, one 2-byte field, 7-byte body: 3 records (recursion depth 4) + 1 padding byte",
     bounds={"body_bytes": 7, "fields": 1, "records": 3}, assumptions=[_K9]))
-reg(["C05", "C01"], H("d10::d_ipfix_two_records", unwind=3, loops=[(r"drop_glue|drop_in_place", 3)], timeout=2400, mem_gb=30, mem_est=12,
+reg(["C05", "C01"], H("d10::d_ipfix_two_records", unwind=3, loops=[(r"drop_glue|drop_in_place", 3)], timeout=2400, mem_gb=30, mem_est=12, fs=4096,
     desc="ipfix::Data::parse, one 2-byte field, 5-byte body: 2 records + 1 padding byte", bounds={"body_bytes": 5, "fields": 1, "records": 2}, assumptions=[_K9]))
 reg(["C05", "C01"], H("d10::d_ipfix_varlen_one_record", unwind=5, timeout=2400, mem_gb=30,
     desc="ipfix::Data::parse, variable-length field (1-byte and 255+2-byte prefix) + 1-byte field, one record",
